@@ -52,14 +52,14 @@ class QModel:
         for f in qf:
             inner = arc_inner(f['ty'])
             if inner and inner in cad.adts:
-                fs = adt_fields(cad, inner)
+                fs = nested_fields(cad, inner)
                 if any(x['ty'].startswith(SENDER) for x in fs) and any(x['ty'].startswith(RECEIVER) for x in fs):
                     self.worker = inner
                     self.f_worker = f['name']
         if self.worker is None:
             rep.anchor_lost('Q0', 'worker type (Arc<_> field of the handle holding both channel halves)')
             return
-        wf = adt_fields(cad, self.worker)
+        wf = nested_fields(cad, self.worker)
         self.wfields = wf
         snd = [x for x in wf if x['ty'].startswith(SENDER)]
         rcv = [x for x in wf if x['ty'].startswith(RECEIVER)]
@@ -83,11 +83,23 @@ class QModel:
                               for _, t in b.calls())]
         wpaths = set(b.path for b in wm)
         self.run = []
+        self.run_caller = None
         if len(self.spawn) == 1:
-            for c_ in cad.closures_of(self.spawn[0].path):
+            todo = list(cad.closures_of(self.spawn[0].path))
+            seen_ = set()
+            while todo:
+                c_ = todo.pop()
+                if c_.path in seen_:
+                    continue
+                seen_.add(c_.path)
                 for _, t in c_.calls():
-                    if t.get('resolved') in wpaths and cad.bodies[t['resolved']] not in self.run:
-                        self.run.append(cad.bodies[t['resolved']])
+                    r_ = t.get('resolved')
+                    if r_ in wpaths:
+                        if cad.bodies[r_] not in self.run:
+                            self.run.append(cad.bodies[r_])
+                            self.run_caller = c_
+                    elif r_ in cad.bodies and t.get('resolved_local') and r_ != self.spawn[0].path and cad.bodies[r_].def_kind == 'Fn':
+                        todo.append(cad.bodies[r_])
         self.stop = []
         self.submit = []
         for b0 in wm:
@@ -105,7 +117,7 @@ class QModel:
                 if callee_is(t, 'crossbeam_channel::channel::Sender::try_send', 'crossbeam_channel::channel::Sender::send',
                              'crossbeam_channel::channel::Sender::send_timeout'):
                     ct = norm(T.call_term(bi))
-                    if self_field_name(ct[2][0]) != self.f_sender:
+                    if not _path_has_field(ct[2][0], self.f_sender):
                         continue
                     pay = ct[2][1]
                     if pay[0] == 'adt' and pay[2] == 'None':
@@ -148,8 +160,8 @@ class QModel:
             return
         # stats ADT + counter fields via the public getters
         self.stats_adt = None
-        for f in wf:
-            if f['ty'] in cad.adts and any('Atomic<u64>' in x['ty'] for x in adt_fields(cad, f['ty'])):
+        for f in adt_fields(cad, self.worker):
+            if f['ty'] in cad.adts and any('Atomic<u64>' in x['ty'] for x in nested_fields(cad, f['ty'])):
                 self.stats_adt = f['ty']
                 self.f_stats = f['name']
         if self.stats_adt is None:
@@ -178,20 +190,27 @@ class QModel:
         if not term_callee_is(r, 'core::sync::atomic::Atomic::load'):
             return None
         loc = peel(r[2][0])
-        if loc[0] == 'load':
-            loc = loc[1]
-        if loc[0] == 'field':
-            return loc[2]
-        return None
+        names = set(f['name'] for f in adt_fields(self.cad, self.stats_adt))
+        while True:
+            if loc[0] in ('load', 'deref', 'ref', 'autoderef'):
+                loc = loc[1]
+            elif loc[0] == 'field':
+                if loc[2] in names and self._is_stats_base(loc[1]):
+                    return loc[2]
+                loc = loc[1]
+            else:
+                return None
+
+    def _is_stats_base(self, t):
+        while t[0] in ('load', 'deref', 'ref', 'autoderef'):
+            t = t[1]
+        return t[0] == 'field' and t[2] == self.f_stats
 
     # ---- classification helpers on (normalised) call terms
     def is_counter_op(self, ct, counter, op):
         if not term_callee_is(ct, 'core::sync::atomic::Atomic::' + op):
             return False
-        loc = peel(ct[2][0])
-        if loc[0] == 'load':
-            loc = loc[1]
-        return loc[0] == 'field' and loc[2] == self.counters.get(counter)
+        return self.counters.get(counter) is not None and _path_has_field(ct[2][0], self.counters.get(counter))
 
     def sends(self, body, T):
         """[(bb, kind, payload)] for sends on the worker's sender reachable in body."""
@@ -245,6 +264,17 @@ def _path_has_field(t, field):
             return False
 
 
+def nested_fields(cad, adt, depth=0):
+    """fields of a local struct including those of local structs it contains by value"""
+    out = []
+    for f in adt_fields(cad, adt) or []:
+        out.append(f)
+        head = f['ty'].split('<', 1)[0]
+        if depth < 3 and head in cad.adts and cad.adts[head]['kind'] == 'Struct' and head != adt:
+            out += nested_fields(cad, head, depth + 1)
+    return out
+
+
 def transitive_local(cad, roots, stop_at=()):
     """Bodies reachable through statically resolved crate-local calls (closures passed as arguments included)."""
     seen = {}
@@ -267,6 +297,15 @@ def transitive_local(cad, roots, stop_at=()):
     return list(seen.values())
 
 
+def _fn_owner(cad, b):
+    """path of the function a closure body belongs to (the body itself for functions)"""
+    seen = 0
+    while b.def_kind == 'Closure' and b.j.get('closure_parent') in cad.bodies and seen < 5:
+        b = cad.bodies[b.j['closure_parent']]
+        seen += 1
+    return b.path
+
+
 def private_region(cad, root, within_type=None):
     """root + private methods that are only called (transitively) from the region: helpers of `root`."""
     region = {root.path}
@@ -278,7 +317,7 @@ def private_region(cad, root, within_type=None):
                 continue
             if within_type and not (x.impl_self and type_head(x.impl_self) == within_type):
                 continue
-            callers = set(y.path for y in cad.all_bodies for _, t in y.calls() if t.get('resolved') == x.path)
+            callers = set(_fn_owner(cad, y) for y in cad.all_bodies for _, t in y.calls() if t.get('resolved') == x.path)
             if callers and callers <= region:
                 region.add(x.path)
                 changed = True
